@@ -6,7 +6,7 @@ muts=[
  ("src/iter/buffered/iter.rs","iter.progress_yielded_counter(self.chunk_size())","iter.progress_yielded_counter(i)"),
  ("src/iter/implementors/iter.rs","false => self.completed.store(true, atomic::Ordering::SeqCst),","false => {}"),
  ("src/iter/implementors/iter.rs","Ordering::Equal => return Some(begin_idx),\n\n                Ordering::Less => return None,","Ordering::Equal | Ordering::Less => return Some(begin_idx),"),
- ("src/iter/implementors/iter.rs","self.completed.store(true, atomic::Ordering::SeqCst);\n    }\n}","self.completed.store(true, atomic::Ordering::Relaxed);\n    }\n}"),
+ # (relaxing the ordering of `completed.store` is NOT a mutant: no listed property depends on it -- see DESIGN.md C07 "as built")
  ("src/iter/buffered/iter.rs","Some(x) => self.values[i] = Some(x),","Some(x) => self.values[0] = Some(x),"),
 ]
 for f,a,b in muts:
